@@ -51,6 +51,10 @@ type c06World struct {
 	replayRec []byte // recorded client->server bytes of a legitimate resumed connection
 	replayNR  []byte // same for a resumption whose request asked for no reply
 	cliCacheU *security.SessionCache
+	// claim layout: the keyed session K is not negotiated but minted as a claim session on
+	// the server and imported by the client (flagged inherited, finite lifetime, no lease)
+	claim     bool
+	idKnown   bool
 }
 
 func (w *c06World) viol(key, f string, a ...any) {
@@ -97,7 +101,31 @@ func (w *c06World) establishU() bool {
 	return true
 }
 
+func (w *c06World) establishClaim() bool {
+	const srv = "<" + hsServerAddr + ">"
+	mc, err := security.MintClaimSession(security.GetSessionCache(), security.MintClaimOptions{Sinful: srv, Birthdate: 1700000000, SequenceNum: 1, Lifetime: c06Duration * time.Second, ValidCommands: []int{5}})
+	if err != nil {
+		w.viol("harness-establish", "mint: %v", err)
+		return false
+	}
+	e, ok := security.GetSessionCache().Lookup(mc.SessionID())
+	if !ok || e.KeyInfo() == nil || len(e.KeyInfo().Data) != 32 {
+		w.viol("harness-establish", "minted claim session has no 32-byte key")
+		return false
+	}
+	if _, err := security.ImportClaimSession(w.cliCache, mc.ClaimID(), security.ClaimSessionOptions{PeerAddr: srv}); err != nil {
+		w.viol("harness-establish", "import: %v", err)
+		return false
+	}
+	w.K = c06Sess{sid: mc.SessionID(), key: append([]byte(nil), e.KeyInfo().Data...), exists: true, exp: w.now + c06Duration}
+	w.cliHasK = true
+	return true
+}
+
 func (w *c06World) establish(keyed bool) bool {
+	if keyed && w.claim {
+		return w.establishClaim()
+	}
 	var cc, sc *security.SecurityConfig
 	if keyed {
 		cc = baseCfg(security.SecurityRequired, security.SecurityRequired, []security.AuthMethod{mCTB}, []security.CryptoMethod{security.CryptoAES}, false)
@@ -144,6 +172,8 @@ func (w *c06World) advance(d int) {
 				continue
 			}
 			ne := security.NewSessionEntry(e.ID(), e.Addr(), e.KeyInfo(), e.Policy(), e.Expiration().Add(-time.Duration(d)*time.Second), e.Lease(), e.Tag())
+			ne.SetInherited(e.IsInherited())
+			ne.SetLastPeerVersion(e.LastPeerVersion())
 			c.Store(ne)
 		}
 	}
@@ -243,6 +273,9 @@ func (w *c06World) probe(q c06Req, target *c06Sess) (clientWire []byte) {
 		sc.SessionDuration, sc.SessionLease = c06Duration, c06Lease
 		sc.SessionCache = c06SrvCache
 	}
+	if w.claim && (target == &w.K || q.raw != nil) {
+		sc.Authentication = security.SecurityOptional // claim sessions never ran an authentication exchange
+	}
 	if q.keyKind == "right" && !q.reply && q.raw == nil && target == &w.K {
 		// this probe goes to a server whose own policy leaves authentication OPTIONAL, so
 		// that the restored authentication status is observed rather than pre-judged by
@@ -318,6 +351,11 @@ func (w *c06World) probe(q c06Req, target *c06Sess) (clientWire []byte) {
 			if string(r.S.AppGot) != "ping-from-requester" || string(o.appFromSrv) != "pong-from-server" || !o.appProt {
 				w.viol("valid-resumption-broken/"+q.label, "requester with the right id and key: server got %q (%s), requester got %q protected=%v", trunc(r.S.AppGot), errStr(r.S.AppErr), trunc(o.appFromSrv), o.appProt)
 			}
+			if w.claim && target == &w.K && !w.idKnown {
+				// a claim session's identity is fixed at minting, not by a handshake the harness
+				// saw: the first live resumption defines it, every later one must repeat it
+				target.user, target.authed, w.idKnown = r.S.Neg.User, r.S.Neg.Authentication, true
+			}
 			if r.S.Neg.User != target.user || r.S.Neg.Authentication != target.authed {
 				w.viol("identity-not-restored/"+q.label, "resumed session reports user %q authenticated=%v, original handshake established %q / %v", r.S.Neg.User, r.S.Neg.Authentication, target.user, target.authed)
 			}
@@ -325,8 +363,8 @@ func (w *c06World) probe(q c06Req, target *c06Sess) (clientWire []byte) {
 				w.viol("resumed-not-encrypted/"+q.label, "resumed keyed session is not encrypted")
 			}
 		}
-		if mayResume {
-			target.exp = w.now + c06Lease // RenewLease
+		if mayResume && !(w.claim && target == &w.K) {
+			target.exp = w.now + c06Lease // RenewLease (a claim session has no lease: its expiry stays)
 		}
 		w.res.Outcome("resumed-" + what)
 	} else {
@@ -451,6 +489,13 @@ func (w *c06World) apply(ev string) (enabled bool) {
 		cc := baseCfg(security.SecurityRequired, security.SecurityRequired, []security.AuthMethod{mCTB}, []security.CryptoMethod{security.CryptoAES}, false)
 		cc.SessionCache, cc.Command = w.cliCache, 5
 		sc := c06ServerCfg(security.CryptoAES, security.SecurityRequired)
+		if w.claim {
+			// the claim's owner names the session explicitly, and neither side insists on an
+			// authentication exchange (a claim session never had one)
+			cc = baseCfg(security.SecurityOptional, security.SecurityRequired, nil, []security.CryptoMethod{security.CryptoAES}, false)
+			cc.SessionCache, cc.Command, cc.SessionID = w.cliCache, 5, w.K.sid
+			sc.Authentication = security.SecurityOptional
+		}
 		r := hsRun(hsOpts{ClientCfg: cc, ServerCfg: sc, App: true})
 		w.res.Transitions++
 		live := w.K.live(w.now)
@@ -469,10 +514,15 @@ func (w *c06World) apply(ev string) (enabled bool) {
 				if string(r.S.AppGot) != "ping-from-client" || string(r.C.AppGot) != "pong-from-server" {
 					w.viol("legit-resumption-no-traffic", "resumed both sides but ping/pong failed: %s / %s", errStr(r.C.AppErr), errStr(r.S.AppErr))
 				}
-				if r.S.Neg.User != w.K.user || !r.S.Neg.Authentication || r.C.Neg.User == "" && w.K.user != "" {
+				if w.claim && !w.idKnown {
+					w.K.user, w.K.authed, w.idKnown = r.S.Neg.User, r.S.Neg.Authentication, true
+				}
+				if r.S.Neg.User != w.K.user || r.S.Neg.Authentication != (w.K.authed || !w.claim) || r.C.Neg.User == "" && w.K.user != "" && !w.claim {
 					w.viol("identity-not-restored/legit", "server user %q auth %v; original %q", r.S.Neg.User, r.S.Neg.Authentication, w.K.user)
 				}
-				w.K.exp = w.now + c06Lease
+				if !w.claim {
+					w.K.exp = w.now + c06Lease
+				}
 				if w.replayRec == nil {
 					w.replayRec = bytes.Join(r.C2S, nil)
 				}
@@ -556,13 +606,18 @@ func (w *c06World) stateKey() string {
 	return fmt.Sprintf("K=%s L=%s U=%s cliHasK=%v rec=%v/%v", f(&w.K), f(&w.L), f(&w.U), w.cliHasK, w.replayRec != nil, w.replayNR != nil)
 }
 
-func c06Replay(hist []string, res *vlib.Result, ownCache bool) *c06World {
+func c06Replay(hist []string, res *vlib.Result, layout int) *c06World {
+	ownCache := layout == 1
 	security.ClearSessionCache()
 	w := &c06World{cliCache: security.NewSessionCache(), cliCacheL: security.NewSessionCache(), cliCacheU: security.NewSessionCache(), res: res, hist: strings.Join(hist, " ")}
 	c06SrvCache = nil
 	if ownCache {
 		c06SrvCache = security.NewSessionCache()
 		w.hist = "servers with a SessionCache of their own: " + w.hist
+	}
+	if layout == 2 {
+		w.claim = true
+		w.hist = "keyed session minted/imported as a claim session: " + w.hist
 	}
 	for _, ev := range hist {
 		if !w.apply(ev) {
@@ -572,7 +627,7 @@ func c06Replay(hist []string, res *vlib.Result, ownCache bool) *c06World {
 	return w
 }
 
-func c06BFS(depth int, res *vlib.Result, ownCache bool) {
+func c06BFS(depth int, res *vlib.Result, layout int) {
 	type node struct{ hist []string }
 	seen := map[string]bool{}
 	frontier := []node{{nil}}
@@ -583,7 +638,7 @@ func c06BFS(depth int, res *vlib.Result, ownCache bool) {
 		var next []node
 		for _, n := range frontier {
 			// probe battery in this state
-			w := c06Replay(n.hist, res, ownCache)
+			w := c06Replay(n.hist, res, layout)
 			if w == nil {
 				continue
 			}
@@ -601,7 +656,7 @@ func c06BFS(depth int, res *vlib.Result, ownCache bool) {
 			}
 			for _, ev := range c06Events {
 				h := append(append([]string{}, n.hist...), ev)
-				w2 := c06Replay(h, res, ownCache)
+				w2 := c06Replay(h, res, layout)
 				if w2 == nil {
 					continue
 				}
@@ -627,7 +682,7 @@ func c06BFS(depth int, res *vlib.Result, ownCache bool) {
 func C06Plan() *vlib.Plan {
 	p := &vlib.Plan{
 		Property: "C06", Level: "model_checking", Workers: 1,
-		Rule:   "E-BFS on the real server resumption path. Events: establish a keyed session (real handshake), establish a key-less session (no common cipher), scripted resumption with the right id+key from another address, legitimate client resumption, advance virtual time by lease/2, lease+60, duration+60, invalidate K / L, sweep expired. A state is the event history replayed on a cleared cache; canonical key = (status and remaining-lifetime bucket of K and L, client still holds K, replay recorded). In EVERY state a battery of scripted requests is fired: {K, L, unknown id} x {wrong key, no key} x {reply requested, not} x {same, different source address}, every single-character alteration of a live id (once), and byte-for-byte replays (whole and truncated at every frame boundary) of a recorded legitimate resumed connection. The whole search runs twice: servers on the package-global cache, and servers configured with a SessionCache of their own and an identity-mapping PostAuthPolicy (sessions are invalidated through the package API, swept in both). Oracle = reference map id -> {key?, expiry, invalidated}. traces = states replayed; transitions = events + probes executed.",
+		Rule:   "E-BFS on the real server resumption path. Events: establish a keyed session (real handshake), establish a key-less session (no common cipher), scripted resumption with the right id+key from another address, legitimate client resumption, advance virtual time by lease/2, lease+60, duration+60, invalidate K / L, sweep expired. A state is the event history replayed on a cleared cache; canonical key = (status and remaining-lifetime bucket of K and L, client still holds K, replay recorded). In EVERY state a battery of scripted requests is fired: {K, L, unknown id} x {wrong key, no key} x {reply requested, not} x {same, different source address}, every single-character alteration of a live id (once), and byte-for-byte replays (whole and truncated at every frame boundary) of a recorded legitimate resumed connection. The whole search runs three times: with the keyed session minted/imported as a claim session (inherited flag, finite lifetime, no lease) instead of negotiated; servers on the package-global cache, and servers configured with a SessionCache of their own and an identity-mapping PostAuthPolicy (sessions are invalidated through the package API, swept in both). Oracle = reference map id -> {key?, expiry, invalidated}. traces = states replayed; transitions = events + probes executed.",
 		Assume: []string{"virtual time = re-storing every cache entry with its expiration moved back (public API), margins of 60 s against real time", "single process, sequential (the server-side cache is process-global)"},
 	}
 	p.Gen = func(tier string, yield func(vlib.Case)) {
@@ -638,13 +693,20 @@ func C06Plan() *vlib.Plan {
 		p.Bounds = map[string]any{"history_depth": D, "events": c06Events}
 		yield(vlib.Case{ID: fmt.Sprintf("bfs/depth=%d", D), Run: func() *vlib.Result {
 			res := &vlib.Result{}
-			c06BFS(D, res, false)
+			c06BFS(D, res, 0)
+			return res
+		}})
+		// the same search with the keyed session minted on the server and imported by the
+		// client as a claim session (inherited flag, finite lifetime, no lease)
+		yield(vlib.Case{ID: fmt.Sprintf("bfs/claim-session/depth=%d", D), Run: func() *vlib.Result {
+			res := &vlib.Result{}
+			c06BFS(D, res, 2)
 			return res
 		}})
 		// the same search over servers configured with a session cache of their own
 		yield(vlib.Case{ID: fmt.Sprintf("bfs/server-own-cache/depth=%d", D), Run: func() *vlib.Result {
 			res := &vlib.Result{}
-			c06BFS(D, res, true)
+			c06BFS(D, res, 1)
 			return res
 		}})
 	}
